@@ -183,6 +183,8 @@ def run(ctx):  # noqa: C901, PLR0912, PLR0915
                f'{fi_.cls.name}.mk_keys stores once per element of {it_txt} but returns {[unparse(r.stmt.value) for r in rets_]}: '
                f'an object stored twice under one key gets one back reference, removal leaves a stale entry in the index',
                fi=fi_)
+    from . import common
+    common.index_lists_not_mutated_while_iterated(ctx, 'C11.R3')
     ri = mk.methods['_rm_indices']
     src = xsrc(ri)
     ok = 'self._object_ids' in src and 'rm_key' in src and any(isinstance(n, ast.Delete) for n in walk_no_nested(ri.node))
